@@ -172,7 +172,7 @@ class Schema(ResolverMap):
                         "Cannot replace specified type %s" % original_type
                     )
 
-                busted_cache = new_type != original_type
+                busted_cache = busted_cache or new_type != original_type
 
                 if new_type is None:
                     del self.types[type_name]
@@ -198,7 +198,11 @@ class Schema(ResolverMap):
 
             if new_directive is None:
                 del self.directives[directive_name]
+                busted_cache = True
             else:
+                busted_cache = busted_cache or (
+                    self.directives.get(directive_name) is not new_directive
+                )
                 self.directives[directive_name] = new_directive
 
         # We can safely ignore the potential type error given that if the type
